@@ -301,6 +301,17 @@ Theorem C13_unsorted_rejected :
 Proof. exact Proofs13.C13_unsorted_rejected. Qed.
 Print Assumptions C13_unsorted_rejected.
 
+(* ---- what "faithful" covers: the canonical serialization of C13_faithful observes the type denotation at every
+   level of the element-type chain, the set of invalid metadata keys (MetadataStore._invalid_keys) and Node.overload;
+   two graphs that differ in one of them have different canonical serializations, so a clone that dropped one of
+   them would contradict C13_faithful. *)
+Theorem C13_canon_observes_denotation_invalid_keys_overload :
+  forall den inv ov den' inv' ov',
+    gcanon (fun x => assoc x (w3_cells den inv ov)) 1 11 = gcanon (fun x => assoc x (w3_cells den' inv' ov')) 1 11 ->
+    den = den' /\ inv = inv' /\ ov = ov'.
+Proof. exact canon_observes_fields. Qed.
+Print Assumptions C13_canon_observes_denotation_invalid_keys_overload.
+
 (* ---- the source the model describes.  Gen/C13Gen.v is regenerated from /repo on every run.
    (a) Every statement of Cloner._get_value / _clone_or_get_value / clone_attr / clone_meta / clone_node /
    _remap_device_configurations / clone_graph, of Graph.clone / GraphView.clone / Function.clone / Model.clone and of
